@@ -16,7 +16,8 @@ RULE = ("one run = a generated object tree (depth 1-3, random and non-random sub
         "below a non-random sub-object; every pre precedes every post; the result satisfies the "
         "constraints under the values assigned in pre_randomize; the values seen in every "
         "post_randomize equal those read after the call returns. Non-trivial = a judged call on a tree "
-        "with >=2 callback-bearing objects; distinct = (tree shape, op 3-grams).")
+        "with >=2 callback-bearing objects; distinct = (tree shape, op 3-grams)."
+        " One party may be of a class with nothing random and nothing constrained (callbacks of the called object still run once each).")
 REAL = ["pyvsc (all of src/vsc)", "PyBoolector"]
 STUB = ["user code (generated callbacks recording events)", "stdout (sink)"]
 ASSUMPTIONS = ["the event log's global sequence number orders callbacks; object identity is mapped to "
